@@ -9,7 +9,7 @@ fence missing at end of file), several blocks per document, blank lines inside b
 multi-line statements, tabs inside statements, non-recipe fenced blocks in between.
 
 `gen_doc(rng)` returns a `Doc` without fault; `inject(doc, rng, ...)` returns a copy with ONE fault
-(kinds: redef, prop, stray, eof) at a chosen statement position of a chosen block;
+(kinds: redef, prop, stray, eof, repeat = a block repeated verbatim) at a chosen statement position of a chosen block;
 `render(doc, eol)` gives the text.
 """
 from __future__ import annotations
@@ -68,7 +68,13 @@ class Names:
 
 def gen_stmt(rng: random.Random, names: Names, defined: List[str]) -> List[str]:
     n = names.fresh()
-    k = rng.randrange(17)
+    k = rng.randrange(19)
+    if k == 17:
+        # a line whose first character is "#" (a legal ingredient name)
+        return [rng.choice([f"#{n} mix", f"# of eggs {n}", f"#item{n}, chopped"])]
+    if k == 18:
+        defined.append(f"#n{n}")
+        return [f"#n{n} = 2 #item{n}"]
     if k == 13:
         # decomposed (NFD) spellings: base letter + combining mark(s)
         return [rng.choice([f"1 jalapen\u0303o{n}", f"2 cre\u0300me bru\u0302le\u0301e{n}", f"1 pin\u0303a cola\u0300da{n}"])]
@@ -395,6 +401,21 @@ def inject(doc: Doc, rng: random.Random, kind: str, bi: int, p: int) -> Optional
         li, col, token = len(st) - 1, -1, ""
         b.stmts.insert(p, st)
         b.blank_after.insert(p, 0)
+    elif kind == "repeat":
+        # block bi becomes a VERBATIM REPEAT of the previous block of the same independent recipe, which starts with a
+        # named definition: the repeat's first statement is a redefinition (its AST equals the earlier block's AST)
+        if bi == 0:
+            return None
+        prev = d.blocks()[bi - 1]
+        name = f"rep{n}"
+        prev.stmts.insert(0, [f"{name} = 1 item{n}a"])
+        prev.blank_after.insert(0, rng.choice([0, 0, 1]))
+        _fix_last_blank(prev)
+        b.stmts = copy.deepcopy(prev.stmts)
+        b.blank_after = list(prev.blank_after)
+        if b.kind == "fenced":
+            b.lang = "recipe"
+        p, li, col, token = 0, 0, 0, name
     else:
         raise ValueError(kind)
     _fix_last_blank(b)
